@@ -32,10 +32,12 @@ const (
 	// combinator.Single / combinator.SuppressError around the operand
 	OpSingle
 	OpSuppress
+	// SeqOf(kids...).HandleResult(combinator.ReturnSingle()): a one-element match returns the element itself
+	OpSeqRetSingle
 )
 
 var opNames = map[Op]string{OpSeqOf: "Seq", OpSeqTry: "SeqTry", OpSeqFirstOrAll: "SeqFOA", OpAny: "Any", OpChoice: "Choice",
-	OpRTrim: "RTrim", OpLTrim: "LTrim", OpSingle: "Single", OpSuppress: "SuppressError", OpOpt: "Opt", OpMany: "Many", OpMany1: "Many1", OpSepBy: "SepBy", OpSepBy1: "SepBy1"}
+	OpRTrim: "RTrim", OpLTrim: "LTrim", OpSingle: "Single", OpSuppress: "SuppressError", OpSeqRetSingle: "SeqReturnSingle", OpOpt: "Opt", OpMany: "Many", OpMany1: "Many1", OpSepBy: "SepBy", OpSepBy1: "SepBy1"}
 
 // Expr is a grammar expression. ID is unique within a grammar.
 type Expr struct {
@@ -210,6 +212,13 @@ func exprNullable(e *Expr, nl []bool) bool {
 		return true
 	case OpRTrim, OpLTrim, OpSingle, OpSuppress:
 		return exprNullable(e.Kids[0], nl)
+	case OpSeqRetSingle:
+		for _, k := range e.Kids {
+			if !exprNullable(k, nl) {
+				return false
+			}
+		}
+		return true
 	case OpNT:
 		return nl[e.NT]
 	case OpSeqOf:
